@@ -28,7 +28,7 @@ def jobs(tier):
         bp = b == "gp_bp"
         for tgt in (1, 2, 3):
             for nest in (0, 1):
-                J.append(Job(b, "sig", "1,0,0,1" if q else "2,0,0,1", dict(p1, target=tgt, nest=nest), env, workers=8))
+                J.append(Job(b, "sig", "2,0,0,1" if (not q or tgt != 3) else "1,0,0,1", dict(p1, target=tgt, nest=nest), env, workers=8))
             J.append(Job(b, "sig", "0,0,0,2" if q else "1,0,0,2", dict(p1, target=tgt), env, workers=8))     # nested handlers
             J.append(Job(b, "sig", "1,1,0,1", dict(p1, target=tgt), env, workers=8))
         J.append(Job(b, "sig", "1,0,0,1", dict(p1, target=2, callrcu=1), env, workers=8))
